@@ -98,6 +98,9 @@ def canon(x, depth=0):
     if tn in ("NortenElement", "TheveninElement"):
         return ["elm", x.name, x.type, canon(_safe(lambda: x.Z)), canon(_safe(lambda: x.Y)),
                 canon(_safe(lambda: x.V)), canon(_safe(lambda: x.I))]
+    if tn == "Schematic":
+        from .ops_draw import canon_schematic
+        return canon_schematic(x)
     if tn == "Branch":
         return ["br", x.node1, x.node2, canon(x.element, depth + 1)]
     if tn == "Network":
